@@ -291,9 +291,23 @@ def mon_deadline(tr):
     packet (the scripted connection reports where the stream stands), a read deadline must be armed - the harness configures a
     non-zero PauseTimeout and never lets time pass, so an unarmed wait there would last for ever"""
     out = []
+    nconn, double = 0, None      # connections dialled so far; the connection that was fed two expiries in a row
     for i, (op, lines) in enumerate(tr):
+        f = op.split()
+        if f and f[0] == "feed" and any(a == "tmo" and b == "tmo" for a, b in zip(f[1:], f[2:])):
+            double = nconn - 1
+        if f and f[0] == "brk":
+            double = None
         for l in lines:
             p = l.split()
+            if l.startswith("ev dial ok"):
+                nconn += 1
+            # two deadline expiries in a row: the second one saw no progress, the connection must be given up - the read
+            # routine cannot be found waiting on it afterwards
+            if double is not None and double == nconn - 1 and (l.startswith("ev stall %d " % double) or l == "rs parked") \
+                    and not any(x.startswith(("unsupported", "dead after")) for x in lines):
+                out.append(("deadline:expiry-ignored", "connection %d saw two read deadline expiries in a row (the second without progress) and the read routine still waits on it: `%s`" % (double, l)))
+                double = None
             if l.startswith("ev stall ") and p[-1] == "unarmed":
                 out.append(("deadline:unarmed-wait:" + ("readall" if op.split()[:1] == ["readall"] else p[3]),
                             "during `%s` the client waits for the stalled broker %s without a read deadline (connection %s)"
